@@ -121,3 +121,233 @@ Proof.
   - destruct (ext_min_scalar_type_nonneg z Hz) as [t' [E' [S' F']]]. rewrite E'. cbn [bind dec_dty].
     rewrite pyv_dty_roundtrip by (apply std_pos, S'). exists t'. repeat split; auto. discriminate.
 Qed.
+
+(* ------------------------------------------------------------------ concatenate *)
+Definition seg_ok (x : Z * list Z) : Prop := 0 <= fst x /\ Forall (fun c => 0 <= c < fst x) (snd x).
+
+Lemma zsum_nonneg_segs xs : Forall seg_ok xs -> 0 <= zsum (map fst xs).
+Proof. intros H. induction H as [|x r [H0 _] _ IH]; cbn; [lia|]. unfold zsum in *. lia. Qed.
+
+Lemma concat_segs_inf t m xs : forall dim,
+  0 < bits t -> fits (DInt t) m = true -> 0 <= dim -> dim + zsum (map fst xs) <= m ->
+  Forall seg_ok xs ->
+  concat_segs (DInt t) dim (map (fun x => (fst x, map (wr (DInt t)) (snd x))) xs) = concat_segs DInf dim xs.
+Proof.
+  induction xs as [|[n seg] r IH]; intros dim Hb Hm Hd Hs Hok; [reflexivity|].
+  inversion Hok as [|? ? [Hn Hseg] Hr]; subst. cbn [fst snd] in *.
+  pose proof (zsum_nonneg_segs r Hr) as Hnn.
+  cbn [map fst snd concat_segs]. cbn [map zsum fold_right fst] in Hs. fold (zsum (map fst r)) in Hs.
+  assert (Hw : map (wr (DInt t)) seg = seg).
+  { apply map_wr_id; [exact Hb|]. eapply Forall_impl; [|exact Hseg]. cbn. intros c Hc.
+    apply (fits_le t m); [exact Hb|exact Hm|lia]. }
+  rewrite Hw. rewrite IH by (auto; lia).
+  unfold s_concat_skip_zero. cbn [andb].
+  destruct (dim =? 0) eqn:E; [reflexivity|].
+  unfold s_concat_add, iarr_py, arr_py. cbn [tdt tv].
+  rewrite (fits_le t m dim Hb Hm) by lia. cbn [fits rmap tv bind].
+  replace (map (fun c => wr (DInt t) (c + dim)) seg) with (map (fun c => wr DInf (c + dim)) seg); [reflexivity|].
+  eapply map_ext_Forall; [|exact Hseg]. cbn beta. intros c Hc.
+  change (wr DInf (c + dim)) with (c + dim). symmetry. apply wr_fits; [exact Hb|].
+  apply (fits_le t m); [exact Hb|exact Hm|lia].
+Qed.
+
+Definition concat_pre (t : ity) (mo : Z) (xs : list (Z * list Z)) : Prop :=
+  std t /\ 0 <= mo /\ Forall seg_ok xs /\ Z.max mo (zsum (map fst xs)) < 2 ^ 64.
+
+Theorem width_irrelevant_concat_proof t mo xs :
+  concat_pre t mo xs ->
+  rmap tv (m_concat (DInt t) mo xs) = rmap tv (m_concat DInf mo xs).
+Proof.
+  intros [St [Hmo [Hok Hlt]]]. unfold m_concat.
+  pose proof (zsum_nonneg_segs xs Hok) as Hnn.
+  set (m := Z.max mo (zsum (map fst xs))) in *.
+  destruct (concat_dtype_chosen t m St ltac:(lia)) as [d' [E C]]. rewrite E. cbn [bind].
+  destruct (chosen_std t m d' St C) as [t' [-> [S' F']]].
+  unfold concat_dtype. rewrite can_store_inf. cbn [negb bind].
+  rewrite (concat_segs_inf t' m xs 0) by (auto using std_pos; lia).
+  replace (map (fun x => (fst x, map (wr DInf) (snd x))) xs) with xs.
+  2:{ clear. induction xs as [|[n s] r IH]; [reflexivity|]. cbn [map fst snd]. rewrite <- IH.
+      f_equal. f_equal. induction s; cbn; congruence. }
+  destruct (concat_segs DInf 0 xs); reflexivity.
+Qed.
+
+Example width_irrelevant_concat_nonvacuous :
+  concat_pre i8 3 [(100, [0; 99]); (100, [5]); (100, [99])] /\
+  rmap tv (m_concat (DInt i8) 3 [(100, [0; 99]); (100, [5]); (100, [99])]) = Ok [0; 99; 105; 299].
+Proof.
+  split; [|reflexivity]. unfold concat_pre, seg_ok. repeat split; cbn; try lia.
+  - unfold std; cbn; lia.
+  - repeat constructor; cbn; lia.
+Qed.
+
+(* ------------------------------------------------------------------ flip *)
+Definition coords_in (n : Z) (c : list Z) : Prop := Forall (fun x => 0 <= x < n) c.
+
+Theorem width_irrelevant_flip_proof t n c :
+  std t -> can_store (DInt t) n = true -> 1 <= n -> coords_in n c ->
+  rmap tv (m_flip (DInt t) n c) = rmap tv (m_flip DInf n c).
+Proof.
+  intros St Hn H1 Hc. pose proof (std_pos t St) as Hb.
+  unfold can_store, s_can_store in Hn.
+  unfold m_flip, s_flip_map, py_arr. cbn [tdt tv].
+  rewrite (fits_le t n (n - 1) Hb Hn) by lia. cbn [fits bind rmap assign_into astype tv tdt].
+  f_equal. rewrite !map_map.
+  eapply map_ext_Forall; [|exact Hc]. cbn beta. intros x Hx.
+  change (wr DInf (wr DInf (n - 1 - x))) with (n - 1 - x).
+  assert (F : fits (DInt t) (n - 1 - x) = true) by (apply (fits_le t n); [exact Hb|exact Hn|lia]).
+  rewrite !(wr_fits t (n - 1 - x) Hb F). reflexivity.
+Qed.
+
+Example width_irrelevant_flip_nonvacuous :
+  std u8 /\ can_store (DInt u8) 255 = true /\ coords_in 255 [0; 7; 254] /\
+  rmap tv (m_flip (DInt u8) 255 [0; 7; 254]) = Ok [254; 247; 0].
+Proof. repeat split; try reflexivity; [unfold std; cbn; lia|repeat constructor; lia]. Qed.
+
+(* ------------------------------------------------------------------ roll *)
+Lemma roll_axis_ok_int t n sh :
+  0 < bits t -> roll_axis_ok (DInt t) n sh = Ok (fits (DInt t) sh && fits (DInt t) (n + sh)).
+Proof.
+  intros Hb. unfold roll_axis_ok, g_roll_axis_ok. cbn [bind py_int as_int].
+  unfold ext_can_store. rewrite (pyv_dty_roundtrip t Hb). cbn [as_int bind cond truthy].
+  destruct (fits (DInt t) sh); cbn [bind cond truthy py_add arith as_int andb rmap]; reflexivity.
+Qed.
+
+Lemma roll_axis_ok_inf n sh : roll_axis_ok DInf n sh = Ok true.
+Proof. reflexivity. Qed.
+
+Lemma promote_signed_i64 t : std t -> sg t = true -> promote (DInt t) (DInt i64) = DInt i64.
+Proof.
+  intros St Hs. cbn. unfold promote_i. rewrite Hs. cbn [sg i64 Bool.eqb bits].
+  unfold std in St. replace (Z.max (bits t) 64) with 64 by lia. reflexivity.
+Qed.
+
+Lemma promote_unsigned_i64 t :
+  std t -> sg t = false -> same_kind (promote (DInt t) (DInt i64)) (DInt t) = false.
+Proof.
+  intros St Hs. cbn [promote]. unfold promote_i. rewrite Hs. cbn [sg i64 Bool.eqb bits].
+  destruct (Z.ltb_spec (bits t) 64); cbn [same_kind sg i64]; [rewrite Hs; reflexivity|].
+  destruct (Z.ltb_spec (bits t) 64); [lia|reflexivity].
+Qed.
+
+Lemma range_in_i64 t : std t -> - 2 ^ 63 <= ilo t /\ (sg t = true -> ihi t <= 2 ^ 63 - 1).
+Proof.
+  intros St. unfold std in St. unfold ihi, ilo.
+  destruct St as [E|[E|[E|E]]]; rewrite E; destruct (sg t); cbn; split; try lia; discriminate.
+Qed.
+
+(* one axis after the guard passed: every intermediate c + sh, c in [0, n), lies between sh and
+   n - 1 + sh, both representable *)
+Lemma roll_row_py t n sh c :
+  0 < bits t -> 0 < n -> fits (DInt t) sh = true -> fits (DInt t) (n + sh) = true ->
+  fits (DInt t) n = true -> coords_in n c ->
+  rmap tv (t1 <- s_roll_add_py (mkT (DInt t) c) sh ;; s_roll_mod t1 n) =
+  Ok (map (fun x => (x + sh) mod n) c).
+Proof.
+  intros Hb Hn Fs Fns Fn Hc.
+  unfold s_roll_add_py, s_roll_mod, iarr_py, arr_py. cbn [tdt tv]. rewrite Fs. cbn [bind tdt tv].
+  rewrite Fn. cbn [rmap tv]. f_equal. rewrite map_map.
+  eapply map_ext_Forall; [|exact Hc]. cbn beta. intros x Hx.
+  assert (Ft : fits (DInt t) (x + sh) = true) by (eapply fits_between; [exact Fs|exact Fns|lia]).
+  rewrite (wr_fits t (x + sh) Hb Ft).
+  unfold np_mod. destruct (Z.eqb_spec n 0); [lia|].
+  apply wr_fits; [exact Hb|]. apply (fits_le t n); [exact Hb|exact Fn|].
+  pose proof (Z.mod_pos_bound (x + sh) n ltac:(lia)). lia.
+Qed.
+
+Lemma roll_row_inf_py n sh c :
+  0 < n ->
+  rmap tv (t1 <- s_roll_add_py (mkT DInf c) sh ;; s_roll_mod t1 n) = Ok (map (fun x => (x + sh) mod n) c).
+Proof.
+  intros Hn. unfold s_roll_add_py, s_roll_mod, iarr_py, arr_py. cbn. f_equal. rewrite map_map.
+  apply map_ext. intros x. unfold np_mod. destruct (Z.eqb_spec n 0); [lia|reflexivity].
+Qed.
+
+Theorem width_irrelevant_roll_proof t n sh c :
+  std t -> can_store (DInt t) n = true -> 0 < n -> coords_in n c ->
+  rmap tv (m_roll (DInt t) n sh c) = rmap tv (m_roll DInf n sh c)
+  \/ m_roll (DInt t) n sh c = Raise ValueError.
+Proof.
+  intros St Hm Hn Hc. pose proof (std_pos t St) as Hb.
+  unfold can_store, s_can_store in Hm.
+  unfold m_roll at 1 3. rewrite (roll_axis_ok_int t n sh Hb). cbn [bind].
+  destruct (fits (DInt t) sh) eqn:Fs; cbn [andb negb]; [|right; reflexivity].
+  destruct (fits (DInt t) (n + sh)) eqn:Fns; cbn [negb]; [|right; reflexivity].
+  unfold s_roll_scalar_shift_is_np64, s_roll_add_np, iarr_np. cbn [tdt tv].
+  destruct (sg t) eqn:Hs.
+  2:{ (* unsigned: the in-place add of an int64 scalar is refused; the handler raises ValueError *)
+      right. rewrite (promote_unsigned_i64 t St Hs). cbn [bind].
+      unfold s_roll_handler, is_unsigned. rewrite Hs. reflexivity. }
+  left. rewrite (promote_signed_i64 t St Hs). cbn [same_kind sg]. rewrite Hs. cbn [orb bind].
+  unfold m_roll. rewrite roll_axis_ok_inf. cbn [bind negb].
+  unfold s_roll_scalar_shift_is_np64, s_roll_add_np, iarr_np, s_roll_mod, iarr_py, arr_py.
+  cbn [tdt tv promote same_kind bind].
+  rewrite Hm. cbn [fits rmap tv]. f_equal. rewrite !map_map.
+  eapply map_ext_Forall; [|exact Hc]. cbn beta. intros x Hx.
+  change (wr DInf (np_mod (wr DInf (wr DInf (x + sh))) n)) with (np_mod (x + sh) n).
+  assert (Ft : fits (DInt t) (x + sh) = true) by (eapply fits_between; [exact Fs|exact Fns|lia]).
+  pose proof (range_in_i64 t St) as [Hlo Hhi]. specialize (Hhi Hs).
+  assert (F64 : fits (DInt i64) (x + sh) = true).
+  { apply fits_iff in Ft. apply fits_iff. cbn. lia. }
+  rewrite (wr_fits i64 (x + sh) ltac:(cbn; lia) F64).
+  rewrite (wr_fits t (x + sh) Hb Ft).
+  unfold np_mod. destruct (Z.eqb_spec n 0); [lia|].
+  apply wr_fits; [exact Hb|]. apply (fits_le t n); [exact Hb|exact Hm|].
+  pose proof (Z.mod_pos_bound (x + sh) n ltac:(lia)). lia.
+Qed.
+
+Example width_irrelevant_roll_nonvacuous :
+  std i8 /\ can_store (DInt i8) 100 = true /\ coords_in 100 [0; 5; 99] /\
+  rmap tv (m_roll (DInt i8) 100 (-100) [0; 5; 99]) = Ok [0; 5; 99] /\
+  rmap tv (m_roll (DInt i8) 100 27 [0; 5; 99]) = Ok [27; 32; 26] /\
+  m_roll (DInt i8) 100 (-200) [0; 5; 99] = Raise ValueError /\
+  m_roll (DInt u8) 100 27 [0; 5; 99] = Raise ValueError.
+Proof. repeat split; try reflexivity; [unfold std; cbn; lia|repeat constructor; lia]. Qed.
+
+(* a tuple of shifts (Python ints), several axes *)
+Definition rows_ok (t : ity) (rows : list (Z * Z * list Z)) : Prop :=
+  Forall (fun r => let '(n, sh, c) := r in 0 < n /\ can_store (DInt t) n = true /\ coords_in n c) rows.
+
+Lemma roll_rows_inf rows :
+  Forall (fun r : Z * Z * list Z => let '(n, sh, c) := r in 0 < n) rows ->
+  rmap (map tv) (roll_rows DInf rows) = Ok (map (fun r : Z * Z * list Z => let '(n, sh, c) := r in map (fun x => (x + sh) mod n) c) rows).
+Proof.
+  intros H. induction H as [|[[n sh] c] r Hn _ IH]; [reflexivity|].
+  cbn [roll_rows map]. pose proof (roll_row_inf_py n sh c Hn) as E.
+  destruct (t1 <- s_roll_add_py (mkT DInf c) sh ;; s_roll_mod t1 n) as [x|e]; cbn [rmap] in E; [|discriminate].
+  cbn [bind]. destruct (roll_rows DInf r) as [rest|e]; cbn [rmap] in IH; [|discriminate].
+  cbn [bind rmap map]. congruence.
+Qed.
+
+Theorem width_irrelevant_roll_tuple_proof t rows :
+  std t -> rows_ok t rows ->
+  rmap (map tv) (m_roll_tuple (DInt t) rows) = rmap (map tv) (m_roll_tuple DInf rows)
+  \/ m_roll_tuple (DInt t) rows = Raise ValueError.
+Proof.
+  intros St Hok. pose proof (std_pos t St) as Hb.
+  assert (Hinf : m_roll_tuple DInf rows = roll_rows DInf rows /\
+                 rmap (map tv) (roll_rows DInf rows) =
+                 Ok (map (fun r : Z * Z * list Z => let '(n, sh, c) := r in map (fun x => (x + sh) mod n) c) rows)).
+  { assert (E : roll_all_ok DInf rows = Ok true).
+    { clear. induction rows as [|[[n sh] c] r IH]; [reflexivity|]. cbn [roll_all_ok]. rewrite roll_axis_ok_inf. exact IH. }
+    assert (R := roll_rows_inf rows ltac:(eapply Forall_impl; [|exact Hok]; intros [[n sh] c]; tauto)).
+    split; [|exact R]. unfold m_roll_tuple. rewrite E. cbn [bind negb].
+    destruct (roll_rows DInf rows) as [x|e]; [reflexivity|discriminate]. }
+  destruct Hinf as [E1 E2]. rewrite E1, E2. clear E1 E2.
+  unfold m_roll_tuple.
+  assert (H : (roll_all_ok (DInt t) rows = Ok false) \/
+              (roll_all_ok (DInt t) rows = Ok true /\
+               rmap (map tv) (roll_rows (DInt t) rows) =
+               Ok (map (fun r : Z * Z * list Z => let '(n, sh, c) := r in map (fun x => (x + sh) mod n) c) rows))).
+  { induction Hok as [|[[n sh] c] r [Hn [Hs Hc]] _ IH]; [right; split; reflexivity|].
+    unfold can_store, s_can_store in Hs.
+    cbn [roll_all_ok]. rewrite (roll_axis_ok_int t n sh Hb). cbn [bind].
+    destruct (fits (DInt t) sh) eqn:Fs; cbn [andb]; [|left; reflexivity].
+    destruct (fits (DInt t) (n + sh)) eqn:Fns; [|left; reflexivity].
+    destruct IH as [IH|[IH1 IH2]]; [left; exact IH|right; split; [exact IH1|]].
+    cbn [roll_rows map]. pose proof (roll_row_py t n sh c Hb Hn Fs Fns Hs Hc) as E.
+    destruct (t1 <- s_roll_add_py (mkT (DInt t) c) sh ;; s_roll_mod t1 n) as [x|e]; cbn [rmap] in E; [|discriminate].
+    cbn [bind]. destruct (roll_rows (DInt t) r) as [rest|e]; cbn [rmap] in IH2; [|discriminate].
+    cbn [bind rmap map]. congruence. }
+  destruct H as [H|[H1 H2]]; rewrite ?H, ?H1; cbn [bind negb]; [right; reflexivity|left].
+  destruct (roll_rows (DInt t) rows) as [x|e]; cbn [rmap] in H2; [exact H2|discriminate].
+Qed.
